@@ -103,6 +103,10 @@ def run_e2e(b, workdir, pkts=None, container=None, keys=None, opts=None, name="i
     outpath = os.path.join(workdir, name + ".out.pcapng")
     if os.path.exists(outpath):
         os.unlink(outpath)
+    if b.spec.get("stale_out"):
+        # the output path already holds a file - a longer export of an earlier run
+        with open(outpath, "wb") as f:
+            f.write(b"\x0a\x0d\x0d\x0a" + bytes(b.spec["stale_out"]))
     spec = dict(b.spec)
     if container is not None:
         spec["container"] = container
